@@ -298,6 +298,34 @@ static void long_lines(void) {
               }
           } }
     }
+    /* multi-line strings with one line at the limit: as first, middle and last line; the recommended text-field or
+     * triple-quoted form is read back whenever every line of it stays within the limit */
+    for (n = 2040; n <= 2050; n++) {
+        int shape;
+        if (n % NW != WK) continue;
+        for (shape = 0; shape < 3; shape++) {
+            static UChar m[2400]; int len = 0, i, au, at, first, last;
+            if (shape != 0) { m[len++] = 'b'; m[len++] = '\n'; }
+            for (i = 0; i < n; i++) m[len++] = 'a';
+            if (shape != 2) { m[len++] = '\n'; m[len++] = 'c'; }
+            m[len] = 0;
+            first = (shape == 0) ? n : 1; last = (shape == 2) ? n : 1;
+            for (au = 0; au < 2; au++) for (at = 0; at < 2; at++) {
+                struct cif_string_analysis_s a; static UChar doc[5200]; struct got g; int dn, fits;
+                cif_analyze_string(m, au, at, 2048, &a); evals++;
+                if (a.length_max != n || a.num_lines != 2 + (shape == 1)) viol("stats", "multi-line shape %d, a^%d: max %d lines %d", shape, n, a.length_max, a.num_lines);
+                if (a.delim_length < 2) { viol("delim", "multi-line string recommended with delimiter length %u", a.delim_length); continue; }
+                if (a.delim_length == 3 && !at) viol("delim", "triple quotes recommended although not allowed");
+                fits = (n <= 2048) && ((a.delim_length == 3) ? (first + 3 <= 2048 && last + 3 <= 2048) : (first + 1 <= 2048));
+                if (!fits) continue;
+                dn = uputs(doc, "#\\#CIF_2.0\ndata_d\n_v\n");
+                dn += ucat(doc + dn, a.delim); dn += ucat(doc + dn, m); dn += ucat(doc + dn, a.delim); dn += uputs(doc + dn, "\n");
+                probe(doc, &g);
+                if (g.nerr || g.nitems != 1 || g.textlen != len)
+                    viol("readback", "multi-line shape %d with a line of %d characters, delimiter %s: %d error(s) (first %d), text length %d of %d", shape, n, show(a.delim), g.nerr, g.firsterr, g.textlen, len);
+            }
+        }
+    }
     printf("S long-lines %ld %ld\n", evals - e0, 0L);
 }
 
